@@ -315,6 +315,10 @@ def shards(tier, seed):
     return out
 
 
+def opt_shards(tier):
+    return [{"part": "variations", "r": r, "n": 16} for r in range(16)]
+
+
 def run_shard(sh):
     st = Stats()
     p = st.part(sh["part"])
